@@ -442,6 +442,82 @@ def judge_leftover(ctx, base, case, path, snaps, k_before, how):
         ctx.violation("StagedWriter", f"leftover-not-the-prefix:{how}", "file left on disk is not the k-th prefix of the complete run", {**case, "k": k})
 
 
+def storage_fault_run(ctx, spec, base, k, workdir):
+    """The file system refuses the k-th staged write (an OSError raised before the file is touched - quota, full disk - and only
+    this once).  "After each stage completes the output file … contains exactly the columns and header values of all stages
+    completed so far": so either the run stops there (the error comes out of compute() and the file left is the last prefix that
+    was written), or - if the run goes on - by the time the NEXT boundary is written, and at return, the file must have caught up
+    with the table of the completed stages.  A run that carries on past a boundary whose file was never written is a violation."""
+    import errno
+    from astropy.table import Table
+    key = spec_key(spec)
+    d = os.path.join(workdir, f"storage_fault_{k}")
+    os.makedirs(d, exist_ok=True)
+    path = os.path.join(d, spec.get("outname", "out.fits"))
+    orig = Table.__dict__["write"]
+    st = {"attempt": 0, "good": [], "behind": None}
+
+    def disk():
+        try:
+            with open(path, "rb") as f:
+                return f.read()
+        except FileNotFoundError:
+            return None
+
+    class W:
+        def __get__(self, obj, objtype=None):
+            if obj is None:
+                return orig.__get__(obj, objtype)
+            real = orig.__get__(obj, objtype)
+
+            def call(*args, **kwargs):
+                if not (args and args[0] == path):
+                    return real(*args, **kwargs)
+                st["attempt"] += 1
+                if st["attempt"] == k:
+                    raise OSError(errno.ENOSPC, "No space left on device (injected by the check)", path)
+                if st["attempt"] == k + 1 and st["behind"] is None:
+                    # the boundary whose write was refused is in the past: is the file still the older prefix?
+                    st["behind"] = disk() == (st["good"][-1] if st["good"] else None)
+                out = real(*args, **kwargs)
+                st["good"].append(disk())
+                return out
+            return call
+
+    Table.write = W()
+    raised = None
+    try:
+        try:
+            run_compute(spec, path)
+        except BaseException as e:  # noqa: BLE001
+            raised = e
+    finally:
+        Table.write = orig
+    case = {"config": key, "seed": spec["seed"], "refused_write": k, "write_attempts": st["attempt"], "raised": repr(raised)[:160]}
+    ctx.case(("storage-fault", key, k), None)
+    ctx.count("storage_fault_runs")
+    if st["attempt"] < k:
+        ctx.count("storage_fault_not_reached")
+        return
+    if raised is not None:
+        ctx.count("storage_fault_surfaced")
+        want = st["good"][-1] if st["good"] else None
+        if disk() != want:
+            ctx.violation("StagedWriter", "leftover-differs-from-last-snapshot:after-refused-write",
+                          "a staged write was refused and compute() raised, but the file left on disk is not the file of the last completed write", case)
+        return
+    if st["behind"]:
+        ctx.violation("StagedWriter", "stage-boundary-passed-without-its-file",
+                      f"the staged write at boundary {k} was refused by the file system (OSError), nothing came out of compute(), and when the "
+                      f"next boundary was reached the file on disk was still the prefix of boundary {k - 1}: the run went on past a completed "
+                      "stage whose columns are not in the file", case)
+    elif st["attempt"] == k:
+        # the refused write was the last one and the run returned normally: the file lacks the last boundary
+        ctx.violation("StagedWriter", "stage-boundary-passed-without-its-file",
+                      f"the last staged write (boundary {k}) was refused by the file system (OSError) and compute() returned normally: the file "
+                      "on disk is not the final table", case)
+
+
 CHILD = r"""
 import json, os, sys, warnings
 warnings.filterwarnings("ignore")
@@ -660,6 +736,9 @@ def run(ctx: Ctx):
             death_run(ctx, spec, base, site, wd)
         if i in (0, 3) or ctx.thorough:
             writes_off(ctx, spec, wd)
+            nb_ = len(base["states"])
+            for k_ in (sorted({2, nb_ // 2, nb_}) if ctx.thorough else sorted({int(rng.integers(2, nb_)), nb_})):
+                storage_fault_run(ctx, spec, base, int(k_), wd)
     zero_survivor_runs(ctx, work)
     cli_fault_runs(ctx, work)
     worker_thread_run(ctx, work)
